@@ -124,8 +124,9 @@ class ComparisonResult:
     for name in utils.get_output_tensor_names(
         self._reference_model, signature_key
     ):
-      # A signature may return the same tensor under more than one output name.
-      if name not in output_tensor_results:
+      # A signature may return the same tensor under more than one output name,
+      # or return one of its inputs; every tensor is filed once.
+      if name in result:
         output_tensor_results[name] = result.pop(name)
 
     constant_tensor_results = {}
